@@ -43,9 +43,15 @@ import (
 //	      c06SlowTimeout for the duration of this step, one request for Event is fired, and
 //	      the plugin's handler does not answer within the timeout (it returns normally, no
 //	      error, long after). The runtime drops such a plugin; the request goes on.
+//	restart  the runtime stops its Adaptation and starts the same object again; every plugin
+//	      is forgotten by it (and is disconnected by the harness), later reg steps connect
+//	      new ones
 type C06Step struct {
-	Op      string    `json:"op"`
-	Idx     string    `json:"idx,omitempty"`
+	Op  string `json:"op"`
+	Idx string `json:"idx,omitempty"`
+	// reg: the name the plugin registers under ("" = p<ordinal>); any non-empty string is a
+	// legal name, among them look-alikes of "<index>-<name>"
+	Name    string    `json:"name,omitempty"`
 	Mask    int32     `json:"mask,omitempty"`
 	Sel     int       `json:"sel,omitempty"`
 	Event   int32     `json:"event,omitempty"`
@@ -56,6 +62,8 @@ type C06Step struct {
 type C06Case struct {
 	Steps  []C06Step `json:"steps"`
 	SpinUs int       `json:"spin_us,omitempty"` // handlers of "odd" (tag, plugin) pairs sleep this long: widening only
+	// Stop() is called on the Adaptation before its first Start()
+	PreStop bool `json:"pre_stop,omitempty"`
 }
 
 const c06MaxPlugins = 8
@@ -102,10 +110,55 @@ func (g *c06GenState) reg(t *rapid.T) C06Step {
 	if eff == 0 {
 		eff = allMask
 	}
+	name := g.name(t, idx)
 	g.masks = append(g.masks, eff)
 	g.idxs = append(g.idxs, idx)
 	g.gone = append(g.gone, false)
-	return C06Step{Op: "reg", Idx: idx, Mask: mask}
+	return C06Step{Op: "reg", Idx: idx, Mask: mask, Name: name}
+}
+
+// name draws the name a plugin registers under: mostly the default, otherwise look-alikes
+// of the runtime's own "<index>-<name>" format and other unusual but legal names.
+func (g *c06GenState) name(t *rapid.T, idx string) string {
+	switch k := rapid.IntRange(0, 19).Draw(t, "name_kind"); {
+	case k < 10:
+		return ""
+	case k < 13: // NN-x with NN from the case's index pool (below / equal / above the real index)
+		nn := rapid.SampledFrom(g.pool).Draw(t, "name_nn")
+		return nn + "-" + rapid.SampledFrom([]string{"tracer", "x", "p0", "a-b", "10-x"}).Draw(t, "name_base")
+	case k < 14:
+		return fmt.Sprintf("%02d-plugin", rapid.IntRange(0, 99).Draw(t, "name_nn_any"))
+	case k < 15:
+		return idx + "-same"
+	case k < 16:
+		return rapid.SampledFrom([]string{"1-x", "123-x", "-x", "x-10", "10", "00", "99-", "--", "a-b-c", "0a-x", " 10-x", "１０-x"}).Draw(t, "name_odd")
+	case k < 17: // the full name of another plugin
+		if n := len(g.idxs); n > 0 {
+			j := rapid.IntRange(0, n-1).Draw(t, "name_of")
+			return fmt.Sprintf("%s-p%d", g.idxs[j], j)
+		}
+		return "10-p0"
+	case k < 19:
+		return rapid.SampledFrom([]string{"my.plugin", "a/b", "../x", "My Plugin", "UPPER", "üñí", "p 1", "p0", "p1", "tab\there", "nri.sock"}).Draw(t, "name_chars")
+	}
+	return rapid.SampledFrom([]string{"", "10-", "99-"}).Draw(t, "long_prefix") + strings.Repeat("n", rapid.SampledFrom([]int{64, 300, 2000}).Draw(t, "name_len"))
+}
+
+func (g *c06GenState) restart() C06Step {
+	for i := range g.gone {
+		g.gone[i] = true
+	}
+	return C06Step{Op: "restart"}
+}
+
+func (g *c06GenState) live() int {
+	n := 0
+	for _, gone := range g.gone {
+		if !gone {
+			n++
+		}
+	}
+	return n
 }
 
 func (g *c06GenState) event(t *rapid.T) int32 {
@@ -209,7 +262,7 @@ func (g *c06GenState) burst(t *rapid.T) C06Step {
 	ns := rapid.SampledFrom([]int{0, 0, 1, 1, 2}).Draw(t, "side_steps")
 	for i := 0; i < ns; i++ {
 		switch op := rapid.IntRange(0, 4).Draw(t, "side_op"); {
-		case op <= 1 && len(g.masks) < c06MaxPlugins:
+		case op <= 1 && g.live() < c06MaxPlugins && len(g.masks) < 2*c06MaxPlugins:
 			s.Side = append(s.Side, g.reg(t))
 		case op <= 3:
 			s.Side = append(s.Side, g.stop(t))
@@ -234,6 +287,9 @@ func genC06(t *rapid.T) C06Case {
 	for i := 0; i < pre && len(c.Steps) < n; i++ {
 		c.Steps = append(c.Steps, g.reg(t))
 	}
+	c.PreStop = rapid.IntRange(0, 9).Draw(t, "pre_stop") == 9
+	restarts := rapid.SampledFrom([]int{0, 0, 0, 0, 0, 0, 1, 1, 2}).Draw(t, "restarts")
+	regAfterRestart := 0
 	// a few histories contain one slow plugin (each costs the shortened request timeout)
 	wantSlow := rapid.IntRange(0, 7).Draw(t, "slow_plugin") == 7
 	for len(c.Steps) < n {
@@ -244,9 +300,20 @@ func genC06(t *rapid.T) C06Case {
 				continue
 			}
 		}
+		if regAfterRestart > 0 && len(g.masks) < 2*c06MaxPlugins {
+			c.Steps = append(c.Steps, g.reg(t))
+			regAfterRestart--
+			continue
+		}
+		if restarts > 0 && len(c.Steps) >= 2 && rapid.IntRange(0, 7).Draw(t, "restart_now") == 0 {
+			c.Steps = append(c.Steps, g.restart())
+			restarts--
+			regAfterRestart = rapid.IntRange(1, 3).Draw(t, "regs_after_restart")
+			continue
+		}
 		op := rapid.IntRange(0, 19).Draw(t, "op")
 		switch {
-		case op < 3 && len(g.masks) < c06MaxPlugins:
+		case op < 3 && g.live() < c06MaxPlugins && len(g.masks) < 2*c06MaxPlugins:
 			c.Steps = append(c.Steps, g.reg(t))
 		case op < 5:
 			c.Steps = append(c.Steps, g.stop(t))
@@ -275,7 +342,9 @@ type c06Entry struct {
 
 type c06Plugin struct {
 	Ord       int    `json:"ord"`
-	Name      string `json:"name"`
+	Name      string `json:"name"`              // the harness's label (p<ordinal>), used in its contributions
+	RegName   string `json:"reg_name"`          // the name the plugin registered under
+	Dropped   bool   `json:"dropped,omitempty"` // forgotten by a restart of the runtime between StopStart and StopEnd
 	Idx       string `json:"idx"`
 	Mask      int32  `json:"mask"` // effective subscription (empty mask = all thirteen)
 	WireZero  bool   `json:"wire_zero,omitempty"`
@@ -314,33 +383,37 @@ type c06Req struct {
 }
 
 type c06Hist struct {
-	Plugins []*c06Plugin `json:"plugins"`
-	Reqs    []*c06Req    `json:"requests"`
-	Log     []c06Entry   `json:"log"`
+	Infra    string       `json:"infra,omitempty"`
+	Restarts int          `json:"restarts,omitempty"`
+	Plugins  []*c06Plugin `json:"plugins"`
+	Reqs     []*c06Req    `json:"requests"`
+	Log      []c06Entry   `json:"log"`
 }
 
 var c06CaseCtr atomic.Int64
 
 type c06Exec struct {
-	rt     *fx.Runtime
+	rt     *lcRuntime
 	caseNo int64
 	ctr    atomic.Int64 // one sequence for log entries and for the marks around requests / registrations / stops
 	reqN   atomic.Int64
 	spin   time.Duration
 
-	mu      sync.Mutex
-	log     []c06Entry
-	armed   map[[2]int]string
-	slow    map[[2]int]bool // armed: the next invocation does not answer in time
-	slowHit map[[2]int]bool // … and it happened
-	done    chan struct{}
-	vetoN   int
-	plugins []*c06Plugin
-	reqs    []*c06Req
+	mu       sync.Mutex
+	log      []c06Entry
+	armed    map[[2]int]string
+	infra    string
+	restarts int
+	slow     map[[2]int]bool // armed: the next invocation does not answer in time
+	slowHit  map[[2]int]bool // … and it happened
+	done     chan struct{}
+	vetoN    int
+	plugins  []*c06Plugin
+	reqs     []*c06Req
 }
 
 func newC06Exec(c C06Case) (*c06Exec, error) {
-	rt, err := fx.NewRuntime()
+	rt, err := newLCRuntime(c.PreStop)
 	if err != nil {
 		return nil, err
 	}
@@ -415,8 +488,12 @@ func (x *c06Exec) register(s C06Step) {
 	x.mu.Unlock()
 
 	name := p.Name
+	p.RegName = s.Name
+	if p.RegName == "" {
+		p.RegName = name
+	}
 	synced, closed := make(chan struct{}, 1), make(chan struct{}, 1)
-	fp := &fx.Plugin{Name: name, Idx: s.Idx, Mask: api.EventMask(p.Mask)}
+	fp := &fx.Plugin{Name: p.RegName, Idx: s.Idx, Mask: api.EventMask(p.Mask)}
 	fp.OnSynchronize = func(context.Context, []*api.PodSandbox, []*api.Container) ([]*api.ContainerUpdate, error) {
 		select {
 		case synced <- struct{}{}:
@@ -503,6 +580,34 @@ func (x *c06Exec) veto(s C06Step) {
 	x.mu.Lock()
 	x.vetoN++
 	x.armed[[2]int{p.Ord, int(s.Event)}] = fmt.Sprintf("veto#%d by %s on %s", x.vetoN, p.Name, evName(s.Event))
+	x.mu.Unlock()
+}
+
+// restart: the same Adaptation object is stopped and started again. It forgets its plugins
+// (their connections stay open but they are not listed any more); the harness disconnects
+// them afterwards. Top level only: nothing else is in flight.
+func (x *c06Exec) restart() {
+	x.mu.Lock()
+	ps := append([]*c06Plugin(nil), x.plugins...)
+	x.mu.Unlock()
+	mark := x.ctr.Add(1)
+	x.rt.A.Stop()
+	end := x.ctr.Add(1)
+	for _, p := range ps {
+		if p.Active != 0 && p.StopStart == 0 {
+			p.Dropped, p.StopStart, p.StopEnd = true, mark, end
+		}
+		if p.fp != nil && p.fp.Stub != nil {
+			p.fp.Stub.Stop()
+		}
+	}
+	if err := x.rt.A.Start(); err != nil {
+		x.mu.Lock()
+		x.infra = "restart: " + shortErr(err)
+		x.mu.Unlock()
+	}
+	x.mu.Lock()
+	x.restarts++
 	x.mu.Unlock()
 }
 
@@ -600,6 +705,10 @@ func (x *c06Exec) step(s C06Step, top bool) {
 		if top {
 			x.slowreq(s)
 		}
+	case "restart":
+		if top && x.restarts < 4 {
+			x.restart()
+		}
 	case "req":
 		if top {
 			x.request(0, s.Event)
@@ -639,7 +748,7 @@ func (x *c06Exec) history() *c06Hist {
 			p.ClosedByRuntime = true
 		}
 	}
-	h := &c06Hist{Plugins: x.plugins, Reqs: append([]*c06Req(nil), x.reqs...), Log: append([]c06Entry(nil), x.log...)}
+	h := &c06Hist{Infra: x.infra, Restarts: x.restarts, Plugins: x.plugins, Reqs: append([]*c06Req(nil), x.reqs...), Log: append([]c06Entry(nil), x.log...)}
 	sort.Slice(h.Reqs, func(i, j int) bool { return h.Reqs[i].Start < h.Reqs[j].Start })
 	return h
 }
@@ -702,6 +811,9 @@ func judgeC06(c C06Case, h *c06Hist) ev.Outcome {
 	lenient := map[string]bool{}
 	classes := map[string]bool{}
 
+	if h.Infra != "" {
+		return ev.Outcome{Overloaded: true, History: h, Classes: []string{"infra:" + h.Infra}}
+	}
 	// registrations: every generated registration is well-formed (two-digit index, mask within
 	// the thirteen events) and must be accepted
 	firstStop := int64(0)
@@ -715,7 +827,7 @@ func judgeC06(c C06Case, h *c06Hist) ev.Outcome {
 		if p.Refused {
 			return fail("plugin %s with valid index %s and valid subscription mask %#x (empty mask sent: %v) was turned away by the runtime", p.Name, p.Idx, p.Mask, p.WireZero)
 		}
-		if p.StopStart != 0 && !p.Slow && (firstStop == 0 || p.StopStart < firstStop) {
+		if p.StopStart != 0 && !p.Slow && !p.Dropped && (firstStop == 0 || p.StopStart < firstStop) {
 			firstStop = p.StopStart
 		}
 	}
@@ -928,7 +1040,21 @@ func judgeC06(c C06Case, h *c06Hist) ev.Outcome {
 	if vetoes > 0 {
 		classes["vetoed"] = true
 	}
+	if c.PreStop {
+		classes["runtime-stopped-before-first-start"] = true
+	}
+	if h.Restarts > 0 {
+		classes["runtime-restarted"] = true
+		for _, p := range h.Plugins {
+			if p.Dropped {
+				classes["runtime-restarted-with-plugins"] = true
+			}
+		}
+	}
 	for _, p := range h.Plugins {
+		if k := c06NameClass(p, h.Plugins); k != "" {
+			classes["name:"+k] = true
+		}
 		if p.WireZero {
 			classes["empty-mask"] = true
 		}
@@ -1152,6 +1278,39 @@ func c06NonContiguous(entries []c06Entry) int {
 		}
 	}
 	return len(bad)
+}
+
+// c06NameClass classifies the registered name of a plugin against the runtime's own
+// "<index>-<name>" format ("" for the default name).
+func c06NameClass(p *c06Plugin, all []*c06Plugin) string {
+	n := p.RegName
+	if n == p.Name {
+		return ""
+	}
+	if len(n) >= 4 && validIdx(n[:2]) && n[2] == '-' {
+		nn := n[:2]
+		switch {
+		case nn == p.Idx:
+			return "index-prefix-equal"
+		}
+		lo, hi := nn, p.Idx
+		if lo > hi {
+			lo, hi = hi, lo
+		}
+		for _, q := range all {
+			if q != p && q.Idx > lo && q.Idx < hi {
+				return "index-prefix-straddling-another-plugin"
+			}
+		}
+		if nn < p.Idx {
+			return "index-prefix-below"
+		}
+		return "index-prefix-above"
+	}
+	if len(n) >= 64 {
+		return "long"
+	}
+	return "other-unusual"
 }
 
 func c06MaskClass(ps []*c06Plugin) string {
